@@ -415,6 +415,14 @@ class AbstractExcelInPython(ABC):
             except:
                 return '#NUM!'
 
+        # parts made by other functions may be whole floats (ROUND gives 2024.0; YEAR(A1)+A2/12 too)
+        if isinstance(year, float) and year.is_integer():
+            year = int(year)
+        if isinstance(month, float) and month.is_integer():
+            month = int(month)
+        if isinstance(day, float) and day.is_integer():
+            day = int(day)
+
         match year:
             case year if 0 <= year <= 1899:
                 year += 1900
